@@ -251,10 +251,10 @@ def perigee_alt_km(n_revday, e):
 
 
 _LIM = 1440.0 / 225.0  # 6.4 rev/day <=> period of 225 min
-_N_RANGE = {"deep": (0.5, _LIM - 1e-6), "near": (_LIM + 1e-6, 16.5), "native": (_LIM + 1e-6, 16.5),
+_N_RANGE = {"deep": (0.5, _LIM), "near": (_LIM, 16.5), "native": (_LIM, 16.5),
             "any": (0.5, 16.5)}
 _N_STRAT = {k: _mix((4, uniform(lo, hi)),
-                    (1, st.sampled_from([x for x in (1.0027, 2.0056, 1.0, 2.0, 0.5, 6.3, 6.39, 6.41, 6.5, 15.5, 16.5,
+                    (1, st.sampled_from([x for x in (1.0027, 2.0056, 1.0, 2.0, 0.5, 6.3, 6.39, 6.4, 6.40000001, 6.41, 6.5, 15.5, 16.5,
                                                      14.2) if lo <= x <= hi])))
             for k, (lo, hi) in _N_RANGE.items()}
 _SGP4_YY = _mix((27, st.integers(73, 99)), (18, st.integers(0, 17)))  # 1973 .. 2017
@@ -306,10 +306,12 @@ def sgp4_fields(draw, regime="any", min_perigee_km=120.0):
         e = emax  # perigee right at the floor
     elif kind == 6:
         e = min(emax, 10 ** (-5 + 3 * u))  # both sides of the model's e = 1e-4 switch
+        if u < 0.4:
+            e = min(emax, (0.0000999, 0.0001, 0.0001, 0.0001001)[int(u * 10)])  # ... and exactly on it
     else:
         e = emax * u
     f["n"] = int(round(n * 10**8))
-    f["ecc"] = min(int(e * 10**7), 9000000)
+    f["ecc"] = min(int(round(e * 10**7, 3)), 9000000)
     f["inc"] = int(round(draw(_INC) * 10**4))
     ang = ints(0, 3599999)
     f["raan"], f["argp"], f["ma"] = draw(ang), draw(ang), draw(ang)
